@@ -62,7 +62,7 @@ func (c16) Gen(r *rand.Rand, tier string, run int) *core.Case {
 			case x < 4:
 				op = core.Op{Kind: "subscribe", X: int64(1 + r.IntN(objs))}
 			case x < 6:
-				op = core.Op{Kind: "remove", X: int64(1 + r.IntN(objs))}
+				op = core.Op{Kind: []string{"remove", "remove", "self"}[r.IntN(3)], X: int64(1 + r.IntN(objs))}
 			case x < 8:
 				op = core.Op{Kind: "terminate", X: int64(1 + r.IntN(objs))}
 			default:
@@ -244,6 +244,15 @@ func (c16) Run(c *core.Case, env *core.Env) {
 			zzsim.SetNode("server")
 			err = w.Svc.Remove(o.id)
 			zzsim.SetNode("harness")
+		} else if kind == "self" {
+			// the object terminates itself through its activation
+			zzsim.SetNode("server")
+			if o.impl.Act.Terminate != nil {
+				o.impl.Act.Terminate()
+			} else {
+				err = fmt.Errorf("no terminator")
+			}
+			zzsim.SetNode("harness")
 		} else if len(o.proxies) > 0 {
 			err = o.proxies[y%len(o.proxies)].Terminate(o.id)
 		} else {
@@ -270,7 +279,7 @@ func (c16) Run(c *core.Case, env *core.Env) {
 					c16call(env, a, i, o, int(op.Y))
 				case "subscribe":
 					subscribe(a, pick(op.X), int(op.Y))
-				case "remove", "terminate":
+				case "remove", "terminate", "self":
 					removal(a, op.Kind, pick(op.X), int(op.Y))
 				case "burst":
 					// more calls in flight on one object than its mailbox holds
